@@ -198,6 +198,14 @@ def run(ctx: Ctx):
     if mask_name:
         lenv[mask_name] = ast.Name("MASK", ast.Load())
     lenv[p_fixed], lenv[p_mobile] = FIX, MOB0
+    # evaluation is a pure function of its argument: no method called by __call__ writes the calculator's state
+    from ..effects import Effects
+    Ef = Effects(ctx.repo)
+    for nm_, g_ in list(eval_methods.items()) + [("__call__", call)]:
+        eff = [e_ for e_ in Ef.summary(g_) if e_.root[0] in ("self", "param", "global")]
+        ctx.ob("R8.1", g_, "write effects of %s: %d" % (nm_, len(eff)), not eff,
+               "evaluating the measure modifies neither the calculator (cached index sets, arrays) nor its argument, so the "
+               "value does not depend on earlier evaluations" + ("" if not eff else " -- " + eff[0].describe()), node=g_.node)
     # ------------------------------------------------------------------ attribute environment for inlining
     aenv: Dict[str, ast.AST] = {}
     for ch, lst in stores.items():
